@@ -715,7 +715,7 @@ def _last_stmt_start(toks, bo, bc):
     return starts[-1]
 
 
-def insert_after_pattern(text, pattern, insertion, fn_name, before=False, nth=1, arm_end=False, arm_last=False, arm_start=False):
+def insert_after_pattern(text, pattern, insertion, fn_name, before=False, nth=1, arm_end=False, arm_last=False, arm_start=False, block_end_of=False):
     """insert `insertion` right after (or before) the nth occurrence of the token sequence `pattern`
     (whitespace-insensitive).  arm_end: insert before the `}` closing the first `{` that follows the pattern.
     Used for ghost snapshots and arm-end assertions (R6)."""
@@ -744,10 +744,23 @@ def insert_after_pattern(text, pattern, insertion, fn_name, before=False, nth=1,
                 if j >= len(toks):
                     break
                 at = _last_stmt_start(toks, j, match_close(toks, j))
-            elif arm_end:
-                j = s_idx[a + len(pat) - 1] + 1
-                while j < len(toks) and toks[j].text != "{":
-                    j += 1
+            elif arm_end or block_end_of:
+                if block_end_of:
+                    # the innermost block that CONTAINS the pattern (however the `else` / arm around it is spelled)
+                    j = s_idx[a] - 1; d = 0
+                    while j >= 0:
+                        x = toks[j]
+                        if x.kind == "punct" and x.text in CLOSE: d += 1
+                        elif x.kind == "punct" and x.text in OPEN:
+                            if d == 0: break
+                            d -= 1
+                        j -= 1
+                    if j < 0 or toks[j].text != "{":
+                        break
+                else:
+                    j = s_idx[a + len(pat) - 1] + 1
+                    while j < len(toks) and toks[j].text != "{":
+                        j += 1
                 if j >= len(toks):
                     break
                 at = match_close(toks, j)
